@@ -204,19 +204,19 @@ def _lin_cases(rng, tier, cs):
     S = odl.solvers
     nper = 10 if tier == 'quick' else 45
     for solver in ('SLandweber', 'SCG', 'SCGN'):
-        for _ in range(nper):
+        for idx in range(nper):
             n = rng.randint(1, 4)
             dom, dk = _space(rng, n)
             if solver == 'SCG':
                 M = _spd(rng, n, ill=rng.random() < 0.25)
-                exact_stop = rng.random() < 0.2
+                exact_stop = idx == 0 or rng.random() < 0.2
                 if exact_stop:
                     M = np.diag([float(rng.choice([1, 2]))] * n)     # one eigenvalue: exact after 1 step, then `return`
                 ran, m = dom, n
             else:
                 m = rng.randint(1, 4)
                 M = _imat(rng, m, n)
-                exact_stop = solver == 'SCGN' and rng.random() < 0.2
+                exact_stop = solver == 'SCGN' and (idx == 0 or rng.random() < 0.2)
                 if exact_stop:
                     m = n
                     M = np.diag([float(rng.choice([1, 2]))] * n)
